@@ -30,7 +30,7 @@ def main():
         a = p["anchors"]
         a = ast.literal_eval(a) if isinstance(a, str) else a
         files_of[p["id"]] = set(a.get("files", []))
-    out_path = os.path.join(V, "seeded", "mutation_campaign.json")
+    out_path = os.path.join(V, "seeded", os.environ.get("MC_OUT", "mutation_campaign.json"))
     data = json.load(open(out_path))
     key = lambda r: (r["pid"], r["file"], r["func"], r["line"], r["desc"])  # noqa: E731
     cands = {key(r): r for d in data.values() for r in d["mutants"] if r["status"] == "survived" and r.get("tests") == "tests-pass"}
